@@ -21,20 +21,19 @@ template <typename ForwardIt, typename Size, typename ValueT, typename Predicate
     }
 
     auto localCounter = Size{};
-    ForwardIt found   = nullptr;
+    auto found        = first;
 
     for (; first != last; ++first) {
         if (pred(*first, value)) {
-            localCounter++;
-            if (found == nullptr) {
+            if (localCounter == Size{}) {
                 found = first;
             }
+            ++localCounter;
+            if (localCounter == count) {
+                return found;
+            }
         } else {
-            localCounter = 0;
-        }
-
-        if (localCounter == count) {
-            return found;
+            localCounter = Size{};
         }
     }
 
